@@ -10,5 +10,5 @@ CONSTANTS
   ChirpKeyByChannel = TRUE
   EagerOps <- None_
   NumpyOps <- None_
-CHECK_DEADLOCK FALSE
 INVARIANT EmitSched
+CHECK_DEADLOCK FALSE
